@@ -290,6 +290,24 @@ pub fn check_pair(g: &Grammar, ta: &str, tb: &str) -> Result<PairResult, String>
             }
         }
     }
+    // --- unnamed singletons that are taken over from B (MOD_COMMON, VARIANT_CODING, ... when A has none): their
+    //     references designate the representatives as well
+    for nb in vb.iter().filter(|n| n.ns.is_none()) {
+        if va.iter().any(|n| n.tag == nb.tag) {
+            continue;
+        }
+        let rs: Vec<&_> = vr.iter().filter(|n| n.tag == nb.tag).collect();
+        if rs.len() != 1 || vb.iter().filter(|n| n.tag == nb.tag).count() != 1 {
+            continue;
+        }
+        for (site, target) in &nb.refs {
+            let Some(tns) = site_ns(site) else { continue };
+            let want = rep.get(&(tns, target.clone())).cloned().unwrap_or_else(|| target.clone());
+            if !rs[0].refs.iter().any(|(s, t)| s == site && *t == want) {
+                res.c09.push((format!("ref-not-renamed:{site}"), format!("{} of B refers at {site} to {target}, whose representative in the result is {want}; the {} of the result has {:?}", nb.tag, nb.tag, rs[0].refs.iter().filter(|(s, _)| s == site).map(|(_, t)| t.clone()).collect::<Vec<_>>())));
+            }
+        }
+    }
     // --- no dangling reference in the result when both inputs were consistent
     if let (Ok(ga), Ok(gb), Ok(gr)) = (graph_of(&ma), graph_of(&mb), graph_of(&mr)) {
         if ga.dangling().is_empty() && gb.dangling().is_empty() {
